@@ -519,4 +519,26 @@ theorem inline_resolves_every_defined_name (env rs : List Route) (hv : namedVali
 
 example : namedValid 0 [.mk 1 [[.atom .path [1]]] [.pass 7, .invoke 2] true, .mk 0 [] [.pass 8, .invoke 3] false] = true := by decide
 
+/-! ## response handlers -/
+
+/-- **the routes of a response handler follow the same rules**: they are evaluated by the same
+    evaluator, in front of the rest of the chain — so everything proved about `serve` (and, through
+    `compile_correct`, the routing rules) holds for them; a response nobody intercepts, or whose
+    handler only replaces the status, runs no route at all. -/
+theorem response_handler_routes_same_rules (rhs : List RespHandler) (st : Nat) (req : Req) (rh : RespHandler)
+    (hf : rhs.find? (·.matchesStatus st) = some rh) (hr : rh.replace = none) :
+    serveIntercepted rhs st req = eval (rh.routes ++ [.mk 0 [] [.answer (.lit st)] false]) false [] req := by
+  simp [serveIntercepted, hf, hr, compile_correct]
+
+theorem response_not_intercepted (rhs : List RespHandler) (st : Nat) (req : Req)
+    (h : ∀ rh ∈ rhs, rh.matchesStatus st = false) : serveIntercepted rhs st req = ⟨[], some st⟩ := by
+  have : rhs.find? (·.matchesStatus st) = none := by
+    rw [List.find?_eq_none]; intro x hx; simp [h x hx]
+  simp [serveIntercepted, this]
+
+example : serveIntercepted [⟨[5], none, [.mk 0 [] [.pass 9] false]⟩, ⟨[404], none, [.mk 0 [[.atom .path [1]]] [.pass 1, .respond 2 201] false]⟩]
+    404 wReq = ⟨[⟨1, 1, none, none, 1⟩, ⟨2, 1, none, none, 1⟩], some 201⟩ := by decide
+example : serveIntercepted [⟨[4], some 299, []⟩, ⟨[], none, [.mk 0 [] [.respond 1 201] false]⟩] 404 wReq
+    = ⟨[], some 404⟩ := by decide
+
 end CaddyModel.C05
